@@ -5,7 +5,7 @@ from . import enc, gen
 from . import stubs  # noqa
 
 AWKWARD = ['(', ')', '[', ']', '{', '}', '<', '>', '&', '"', "'", '/', '|', ',', '.', ':', ';', '-', '_', '%', 'a>b', '<x>', 'a/b', 'x&y',
-           "can't", '"q"', 'C++', '100%', '-LRB-', 'a_b', '日本', '語', 'é', '\U0001F600', 'café', 'A|B', 'x:y', '&amp;', 'a.b', '--', 'x)[conj]', 'y][conj]', 'f(x)', 'T>', '<L', 'a\\b']
+           "can't", '"q"', 'C++', '100%', '-LRB-', 'a_b', '日本', '語', 'é', '\U0001F600', 'café', 'A|B', 'x:y', '&amp;', 'a.b', '--', 'x)[conj]', 'y][conj]', 'f(x)', 'T>', '<L', 'a\\b', 'wow!', '!', '9am', 'U.S.']
 PLAIN = ['John', 'loves', 'Mary', 'the', 'dog', 'runs', 'and', 'cat', 'quickly', 'of', 'Tokyo', 'saw']
 
 
@@ -20,7 +20,7 @@ def words_for(rng, n, awkward=0.4, exclude=''):
 
 
 def en_token(rng, word):
-    return {'word': word, 'lemma': rng.choice([word.lower(), 'XX', 'be']), 'pos': rng.choice(['NN', 'VBZ', 'DT', 'IN', ',', '.', 'XX']),
+    return {'word': word, 'lemma': rng.choice([word.lower(), 'XX', 'be', word, '*']), 'pos': rng.choice(['NN', 'VBZ', 'DT', 'IN', ',', '.', 'XX']),
             'entity': rng.choice(['O', 'I-PER', 'XX']), 'chunk': rng.choice(['I-NP', 'I-VP', 'XX'])}
 
 
@@ -37,7 +37,8 @@ def ja_token(rng, word):
     t = {'word': word, 'pos': rng.choice(['名詞', '動詞', 'noun']), 'pos1': rng.choice(['*', '一般', 'g']),
          'pos2': '*', 'pos3': '*', 'inflectionForm': rng.choice(['*', '基本形']), 'inflectionType': rng.choice(['*', 'v5'])}
     if rng.random() < 0.5:
-        t['base'] = word
+        # '*' is what the Japanese tokenizer writes for a word without a dictionary form
+        t['base'] = rng.choice([word, word, '*'])
     return t
 
 
